@@ -242,7 +242,7 @@ func reloadBinary(t *testing.T, prop string) {
 				break
 			}
 			if time.Now().After(deadline) {
-				rt.Fatalf("the binary does not answer on %s: %s", addr, clipS(logs.String()))
+				rt.Fatalf("positive control: the binary does not answer on %s: %s", addr, clipS(logs.String()))
 			}
 			time.Sleep(20 * time.Millisecond)
 		}
